@@ -508,6 +508,28 @@ func genC01(cw *caseWriter, seed uint64, tier string) {
 		to := randCols(r, 0, true, true)
 		emitEmit(cw, "C01", to, apiValue(r, to, true), true)
 	}
+	// long lines around the buffer sizes a writer or reader might use (4 KiB bufio default, 64 KiB scanner
+	// buffer; thorough: 1 MiB): still exactly one write; a row rejected on a late column still writes nothing
+	sizes := []int{4000, 4090, 4095, 4096, 4097, 5000, 8192, 65535, 65536, 70000}
+	if tier == "thorough" {
+		sizes = append(sizes, 1<<20)
+	}
+	for _, sz := range sizes {
+		long := strings.Repeat("x", sz)
+		late := []colDesc{{name: "a", format: "string", ty: "none"}, {name: "z", format: "numeric", ty: "none"}}
+		emitLine(cw, "C01", nil, nil, []byte(`{"k":"`+long+`"}`), true)
+		emitLine(cw, "C01", nil, late, []byte(`{"a":"`+long+`","z":1}`), true)
+		emitLine(cw, "C01", nil, late, []byte(`{"a":"`+long+`","z":"abc"}`), true)
+		emitEmit(cw, "C01", nil, func() interface{} { return map[string]interface{}{"k": long} }, true)
+		if sz > 8192 && tier != "thorough" {
+			continue
+		}
+		var many []string
+		for i := 0; len(many)*12 < sz; i++ {
+			many = append(many, fmt.Sprintf(`"k%06d":%d`, i, i%10))
+		}
+		emitLine(cw, "C01", nil, nil, []byte("{"+strings.Join(many, ",")+"}"), true)
+	}
 	// deep nesting
 	for _, d := range []int{1, 10, 64} {
 		emitLine(cw, "C01", nil, nil, []byte(strings.Repeat(`{"a":[`, d)+`1`+strings.Repeat(`]}`, d)), true)
